@@ -54,6 +54,62 @@ func hasQuant(t *Term) bool {
 	return r
 }
 
+var hardCache = map[*Term]bool{}
+
+// hasHardQuant: contains an existential, or a universal whose bound variable never
+// occurs as an array index (nothing to trigger on).
+func hasHardQuant(t *Term) bool {
+	if v, ok := hardCache[t]; ok {
+		return v
+	}
+	r := false
+	switch t.Op {
+	case "exists":
+		r = true
+	case "forall":
+		for _, b := range t.Bound {
+			if !usedAsIndex(t.Args[0], b, map[*Term]bool{}) {
+				r = true
+			}
+		}
+	}
+	if !r {
+		for _, a := range t.Args {
+			if hasHardQuant(a) {
+				r = true
+				break
+			}
+		}
+	}
+	hardCache[t] = r
+	return r
+}
+
+func usedAsIndex(t, b *Term, seen map[*Term]bool) bool {
+	if seen[t] || !t.hasBnd {
+		return false
+	}
+	seen[t] = true
+	if (t.Op == "select" && t.Args[1] == b) || (t.Op == "app" && containsArg(t, b)) {
+		return true
+	}
+	for _, a := range t.Args {
+		if usedAsIndex(a, b, seen) {
+			return true
+		}
+	}
+	return false
+}
+
+func containsArg(t, b *Term) bool {
+	for _, a := range t.Args {
+		if a == b {
+			return true
+		}
+	}
+	return false
+}
+
 func symsOf(t *Term, into map[*Term]bool, seen map[*Term]bool) {
 	if seen[t] {
 		return
@@ -63,7 +119,7 @@ func symsOf(t *Term, into map[*Term]bool, seen map[*Term]bool) {
 		into[t] = true
 	}
 	if t.Op == "app" {
-		into[Sym("uf$"+t.Name, BoolSort)] = true
+		into[Sym("uf_"+t.Name, BoolSort)] = true
 	}
 	for _, a := range t.Args {
 		symsOf(a, into, seen)
@@ -109,6 +165,74 @@ func (o *Obligation) variants() []scriptVariant {
 		return []scriptVariant{{"full", full, true}}
 	}
 	out := []scriptVariant{{"qf", mkScript(qf), false}}
+	goalSyms := map[*Term]bool{}
+	{
+		seen := map[*Term]bool{}
+		for _, g := range goal {
+			symsOf(g, goalSyms, seen)
+		}
+	}
+	// an engine axiom with a hard quantifier (definition of an opaque predicate with an
+	// existential body) is only useful when the goal mentions that predicate
+	engineOK := func(h *Term) bool {
+		if !hasHardQuant(h) {
+			return true
+		}
+		hsyms := map[*Term]bool{}
+		symsOf(h, hsyms, map[*Term]bool{})
+		for s := range hsyms {
+			if strings.HasPrefix(s.Name, "uf_") && goalSyms[s] {
+				return true
+			}
+		}
+		return false
+	}
+	// "self": for a loop invariant clause, the quantified hypotheses that come from the engine
+	// (copy/frame/range axioms) and from the same clause (plus clauses labelled shape*/core*)
+	if o.Clause != nil && (o.Kind == "invariant-pres" || o.Kind == "invariant-entry") {
+		root := o.Root
+		var self []*Term
+		nAx := len(root.axioms)
+		nsel := 0
+		for i, h := range hs {
+			if !hasQuant(h) {
+				self = append(self, h)
+				continue
+			}
+			tag := ""
+			if i >= nAx && i-nAx < len(root.assumeNotes) {
+				tag = root.assumeNotes[i-nAx]
+			}
+			if (tag == "" && engineOK(h)) || tag == "inv:"+o.Clause.Label || strings.HasPrefix(tag, "inv:shape") || strings.HasPrefix(tag, "inv:core") {
+				self = append(self, h)
+				nsel++
+			}
+		}
+		if nsel < len(quant) {
+			out = append(out, scriptVariant{"self", mkScript(self), false})
+		}
+		// "lite": additionally every invariant clause that is a plain bounded forall
+		// (no existential, no quantifier over an unbounded domain)
+		var lite []*Term
+		nl := 0
+		for i, h := range hs {
+			if !hasQuant(h) {
+				lite = append(lite, h)
+				continue
+			}
+			tag := ""
+			if i >= nAx && i-nAx < len(root.assumeNotes) {
+				tag = root.assumeNotes[i-nAx]
+			}
+			if (tag == "" && engineOK(h)) || tag == "inv:"+o.Clause.Label || (tag != "" && !hasHardQuant(h)) {
+				lite = append(lite, h)
+				nl++
+			}
+		}
+		if nl > nsel && nl < len(quant) {
+			out = append(out, scriptVariant{"lite", mkScript(lite), false})
+		}
+	}
 	// relevance: quantified hypotheses sharing a symbol with goal (closure over qf hypotheses not attempted)
 	gs := map[*Term]bool{}
 	seen := map[*Term]bool{}
@@ -271,7 +395,7 @@ func runJob(j *solveJob, timeoutS int) {
 		t := timeoutS
 		if !v.full {
 			t = 3
-			if v.name == "rel" {
+			if v.name == "rel" || v.name == "self" || v.name == "lite" {
 				t = 5
 			}
 			if t > timeoutS {
